@@ -15,7 +15,8 @@ ASSUMPTIONS = ["any exception type raised from package code counts as a rejectio
 
 BOTH_ENTRY = ["driving-force", "solver", "permeate-composition", "separation-factor", "ideal-curve", "nonideal-curve",
               "ideal-iso", "ideal-noniso", "nonideal-iso", "nonideal-noniso", "pure-flux", "curve-from-fluxes"]
-MODEL_ENTRY = ["activity-coefficients", "partial-pressures", "solver", "ideal-iso"]
+MODEL_ENTRY = ["activity-coefficients", "partial-pressures", "driving-force", "solver", "permeate-composition", "separation-factor",
+               "ideal-curve", "ideal-iso", "ideal-noniso"]
 CELLS = ([("both-permeate", e) for e in BOTH_ENTRY]
          + [("mixture-without-parameters", "constructor")]
          + [("nrtl-without-parameters", e) for e in MODEL_ENTRY]
